@@ -324,18 +324,40 @@ Definition proven (sv : server) (host : N) (now : Z) (vals : list term) (p : N) 
   existsb (fun b => existsb (fun s => challenge_proof sv host now p b s) vals) vals
   || existsb (fun b => token_proof sv now p b) vals.
 
+
 (* the id the application was given (None = none) *)
 Definition reported_obs (c : case3) : option N :=
   if c3_mode c =? 0 then
     (if (c3_o1 c =? 0) && (0 <=? c3_pid c) then Some (Z.to_N (c3_pid c)) else None)
   else (if 0 <=? c3_pid c then Some (Z.to_N (c3_pid c)) else None).
 
+(* what the server hands out: a state authentic under its secret that is a token
+   naming q may be emitted only in answer to a request that itself proves q with
+   a signature over this server's challenge (tokens are issued to proven peers only) *)
+Definition challenge_proven_in (sv : server) (host : N) (now : Z) (vals : list term) (q : N) : bool :=
+  existsb (fun b => existsb (fun s => challenge_proof sv host now q b s) vals) vals.
+
+Definition minted_ok (sv : server) (host : N) (now : Z) (vals : list term) (out : ohdr) : bool :=
+  forallb (fun x => match own_state sv (snd x) with
+                    | Some s =>
+                        if os_token s then
+                          match os_pid s with
+                          | Some q => challenge_proven_in sv host now vals q
+                          | None => true
+                          end
+                        else true
+                    | None => true
+                    end) out.
+
 Definition monitor3 (c : case3) : list Z :=
+  let vals := carried (c3_tbl c) (c3_hdr c) in
   match reported_obs c with
-  | None => []
   | Some p =>
-      if proven (c3_sv c) (c3_host c) (c3_now c) (carried (c3_tbl c) (c3_hdr c)) p then []
+      if proven (c3_sv c) (c3_host c) (c3_now c) vals p then
+        (if minted_ok (c3_sv c) (c3_host c) (c3_now c) vals (c3_out c) then [] else viol 6 [Z.of_N p])
       else viol 3 [Z.of_N p]
+  | None =>
+      if minted_ok (c3_sv c) (c3_host c) (c3_now c) vals (c3_out c) then [] else viol 6 [-1]
   end.
 
 (* ---- kind 4: a client handshake ------------------------------------------------------- *)
